@@ -159,8 +159,8 @@ def run(ctx):
                            sample={"rule": "window-invariant", "clause": "a", "S": repr(st.S), "R": repr(st.R), "L": repr(st.L)})
                 elif re.search(r"Vec::<T, A>::drain$", name) and T.is_field(T.peel(p.arg(pos, 0)), "bytes"):
                     rng = p.arg(pos, 1)
-                    okd = rng[0] == "agg" and (rng[2] or "").endswith("ops::Range") and T.is_const_int(rng[4][0], 0)
-                    hi = st.sub(aff_of(rng[4][1])) if okd else None
+                    okd = rng[0] == "agg" and (((rng[2] or "").endswith("ops::Range") and T.is_const_int(rng[4][0], 0)) or (rng[2] or "").endswith("ops::RangeTo"))
+                    hi = st.sub(aff_of(rng[4][-1])) if okd else None
                     nchecks += 1
                     ctx.ob("C01.window-invariant", okd and hi == st.S, "(c) drain removes %s (need exactly [0, start) = [0, %r))" % (term_str(rng)[:60], st.S), fn=fr.path,
                            construct="drain", where=fr.where(blk), key_extra={"tag": tag})
@@ -290,7 +290,8 @@ def run(ctx):
         pk = prog.one(r"^packet::packet$")
         ctx.fn(pk)
         n_ext = 0
-        for b in [pk] + [prog.bodies[c] for c in prog.callgraph.get(pk.path, ()) if c.startswith("packet::packet::{closure")]:
+        helpers = [prog.bodies[c] for c in sorted(prog.reachable_fns([pk.path])) if c != pk.path and c in prog.bodies and c not in (one.path, full.path)]
+        for b in [pk] + helpers:
             for bb, t in b.calls():
                 if cname(t["func"]).endswith("packet::Packet::extend"):
                     n_ext += 1
